@@ -937,11 +937,12 @@ def observe(tier):
     for k, (b, p) in enumerate(allp):
         if k in chosen:
             singles.append(plant_spec(b, p, p["n"]))
-    # the plants that take part in the pairs (thorough): the quick-style selection restricted to each base
+    # the plants that take part in the pairs (thorough): per base, the first documented plant of every
+    # (rule, defect class) -- one per rule if the rule has a single class
     for b in bases:
         seen = set()
-        for p in plants_of(b):
-            c = (p["rule"], abstract_pos(p["pos"]))
+        for p in sorted(plants_of(b), key=lambda p: (not p["documented"], p["n"])):
+            c = (p["rule"], p.get("key") or "")
             if c not in seen:
                 seen.add(c)
                 selected_of[b.id].append(p)
@@ -1119,7 +1120,7 @@ def oracle_c08(obs, rep, tier):
                 + ("quick: one plant (%d for rules with <= %d classes) of every (rule, position-class without level numbers, flat/nested base), "
                    "preferring the plant whose parts are furthest apart in the nesting tree. " % (SMALL_RULE_QUOTA, SMALL_RULE_MAX_CLASSES)
                    if tier == "quick" else
-                   "thorough: all plants, plus all compatible pairs of plants (one per position-class) of %d flat bases. " % N_PAIR_BASES) +
+                   "thorough: all plants, plus all compatible pairs of plants (the first plant of every (rule, defect class)) of %d flat bases. " % N_PAIR_BASES) +
                 "Oracle: pavexc exits non-zero, prints >= 1 ERROR and leaves no new/changed src/lib.rs. Plants whose rule is not documented "
                 "for that position are run but only counted (unspecified_*). Non-trivial/distinct = distinct judged (rule, position-class).",
         "samples": samples, "position_classes": len(classes), "position_classes_judged": len(classes_judged),
